@@ -1,1 +1,57 @@
-From Ufw Require Import Model.RegTable.
+(* C02  Block writes are validated as a whole and are all-or-nothing.
+   Statements only; proofs in Proof/RegLemmas.v.  Proved: atomicity on failure, the order and addresses of the
+   failure classes, soundness of the READONLY / NOENTRY addresses, and that success implies every overlapped
+   register decodes and validates after the overlay and is marked touched.  The exact word image after a
+   successful write spanning several areas is tied by correspondence only (DESIGN.md C02, partial). *)
+From Ufw Require Import Base.Bits Model.RegTable Proof.RegLemmas.
+From Coq Require Import Bool.
+Local Open Scope N_scope.
+
+Theorem C02_failure_atomic : forall t addr n buf r t',
+  block_write t addr n buf = (r, t') -> fst r <> ASuccess -> t' = t.
+Proof. exact block_write_failure_atomic. Qed.
+Print Assumptions C02_failure_atomic.
+
+Theorem C02_zero_length : forall t addr buf, t_init t = true -> block_write t addr 0 buf = ((ASuccess, 0), t).
+Proof. exact block_write_zero. Qed.
+Print Assumptions C02_zero_length.
+
+(* failure class and address: read-only first, then unmapped, then the first register that fails after overlay *)
+Theorem C02_failure_report : forall t addr n buf, t_init t = true -> n <> 0 ->
+  fst (block_write t addr n buf) =
+  match first_readonly (t_areas t) addr n with
+  | Some a => (AReadOnly, a)
+  | None => match first_hole (area_fuel t) t addr n with
+            | Some a => (ANoEntry, a)
+            | None => match malformed t (t_entries t) addr n buf with
+                      | Some r => r
+                      | None => (ASuccess, 0)
+                      end
+            end
+  end.
+Proof. exact block_write_report. Qed.
+Print Assumptions C02_failure_report.
+
+Theorem C02_readonly_address : forall areas addr n x, n <> 0 -> Forall (fun a => 0 < a_size a) areas ->
+  first_readonly areas addr n = Some x ->
+  addr <= x < addr + n /\ exists a, In a areas /\ area_is_writeable a = false /\ addr_in_area a x = true.
+Proof. exact first_readonly_sound. Qed.
+Print Assumptions C02_readonly_address.
+
+Theorem C02_all_mapped : forall fuel t addr n, first_hole fuel t addr n = None ->
+  forall x, addr <= x < addr + n -> exists i a, find_area (t_areas t) x 0 = Some (i, a).
+Proof. exact first_hole_none. Qed.
+Print Assumptions C02_all_mapped.
+
+Theorem C02_success : forall t addr n buf t', block_write t addr n buf = ((ASuccess, 0), t') -> n <> 0 ->
+  (forall x, addr <= x < addr + n -> exists i a, find_area (t_areas t) x 0 = Some (i, a)) /\
+  first_readonly (t_areas t) addr n = None /\
+  (forall e, In e (t_entries t) -> overlaps e addr n = true ->
+     exists cur, entry_words t e = Some cur /\
+       let lo := N.max addr (e_addr e) in let hi := N.min (addr + n) (e_addr e + tsize (e_type e)) in
+       let new := blit cur (N.to_nat (lo - e_addr e)) (slice buf (N.to_nat (lo - addr)) (N.to_nat (hi - lo))) in
+       let v := {| v_type := e_type e; v_bits := des_bits (t_be t) (e_type e) new |} in
+       ser_ok v = true /\ validate (t_during t) e v = true) /\
+  map e_touched (t_entries t') = map (fun e => e_touched e || overlaps e addr n) (t_entries t).
+Proof. exact block_write_success_validated. Qed.
+Print Assumptions C02_success.
